@@ -1,6 +1,7 @@
 (* Props.C20 — every file lasio opens is closed again, whatever fails and wherever.
    Statements only; the proofs are in Proofs/IOSkelProofs.v, the skeletons in Gen/Skel.v
-   (re-translated from lasio/las.py and lasio/reader.py on every run).
+   (re-translated from lasio/las.py, lasio/reader.py and lasio/convert_version.py on every run;
+   every other source file of the package is scanned for open sites: C20_no_other_open_sites).
 
    Reading.  A call is a run `exec s σ o σ'` of the function's open/close skeleton s in the
    nondeterministic semantics of Model/IOSkel.v: every MayRaise / Open / Close may complete
@@ -74,6 +75,13 @@ Proof. vm_compute. reflexivity. Qed.
 (* the API functions hand no handle to their caller *)
 Theorem C20_api_returns_nothing : rets_read = [] /\ rets_write = [] /\ rets_to_csv = [].
 Proof. vm_compute. repeat split. Qed.
+(* the one open site of the package outside las.py / reader.py: the converter script
+   (lasio/convert_version.py: lasio.read(in); with open(out) as f: las.write(f)) *)
+Theorem C20_convert_version : leak_free skel_convert_version = true.
+Proof. vm_compute. reflexivity. Qed.
+Theorem C20_convert_version_exec : forall tc n o σ',
+  exec skel_convert_version ([], tc, n) o σ' -> owned σ' = [] /\ lost σ' = n.
+Proof. exact (leak_free_sound _ C20_convert_version). Qed.
 
 (* the semantic statements for the three API calls *)
 Theorem C20_read_exec : forall tc n o σ', exec skel_read ([], tc, n) o σ' -> owned σ' = [] /\ lost σ' = n.
@@ -93,7 +101,11 @@ Proof. intros σ o σ' X. exact (caller_handles_untouched_sound _ _ _ _ X C20_ca
 Theorem C20_caller_untouched_to_csv_exec : forall σ o σ', exec skel_to_csv σ o σ' -> touched σ' = touched σ.
 Proof. intros σ o σ' X. exact (caller_handles_untouched_sound _ _ _ _ X C20_caller_untouched_to_csv). Qed.
 
-(* no module reachable from las.py opens a file outside the six translated functions *)
+(* NO source file of the lasio package (every lasio/**/*.py: __init__, las_version, examples, convert_version, excel,
+   ... — not only the modules las.py imports) calls an opener (open, io.open, x.open, io.FileIO, os.fdopen,
+   TextIOWrapper, NamedTemporaryFile, GzipFile, ZipFile, ... : translators/skeleton.py OPENERS) or reaches one under
+   another name (f = open, from io import open as f, getattr(io, "open")) outside the translated functions.
+   lasio.read(..) and LASFile(..) are therefore LASFile.read plus code that opens nothing. *)
 Theorem C20_no_other_open_sites : other_open_sites = [].
 Proof. reflexivity. Qed.
 
@@ -192,4 +204,7 @@ Print Assumptions C20_caller_untouched_to_csv.
 Print Assumptions C20_caller_untouched_write_exec.
 Print Assumptions C20_caller_untouched_to_csv_exec.
 Print Assumptions C20_no_other_open_sites.
+Print Assumptions C20_api_returns_nothing.
+Print Assumptions C20_convert_version.
+Print Assumptions C20_convert_version_exec.
 Print Assumptions C20_api_returns_nothing.
